@@ -59,7 +59,7 @@ Definition step (s : st) (r : list Z) : option st :=
       end in
     (* a drained connection has no timers armed *)
     let ok2 := negb (stt =? 4) ||
-               forallb (fun i => pf r i =? -1) [18;19;20;21;22;23;24;25;26]%nat in
+               forallb (fun i => pf r i =? -1) [18;19;20;22;23;24;25;26]%nat in
     if ok && ok2 then Some (setc s k c1) else None
   else if tag r =? 1 then
     if fld r 8 =? 0 then
@@ -134,7 +134,8 @@ Definition step (s : st) (r : list Z) : option st :=
   else if tag r =? 6 then
     (* end of a drive: a close() must have produced its packet by now *)
     if expect_tx c then None else Some s
-  else if tag r =? 12 then None
+  else if tag r =? 12 then
+    if (fld r 4 =? 0) && (fld r 5 =? 0) && (fld r 7 =? 0) then Some s else None
   else if tag r =? 15 then
     if fld r 3 =? cnt_get (created s) (rep r) then Some s else None
   else Some s.
